@@ -45,6 +45,9 @@ def main():
     ap.add_argument('--keep', action='store_true')
     ap.add_argument('--needs', default='')
     ap.add_argument('--skip-confirm', action='store_true')
+    ap.add_argument('--base', default='HEAD',
+                    help='commit of /repo the patch was written for (when it '
+                    'no longer applies to HEAD)')
     a = ap.parse_args()
     breaks = a.breaks or a.seed_id.split('_')[0]
     props = (a.props or breaks).split(',')
@@ -54,7 +57,7 @@ def main():
     meta = {'seed': a.seed_id, 'breaks_property': breaks,
             'needs_to_manifest': a.needs, 'ran': [], 'checks': {}}
     rc, out = sh(['git', '-C', '/repo', 'worktree', 'add', '--detach', wt,
-                  'HEAD'])
+                  a.base])
     if rc:
         print(out)
         return 2
@@ -64,7 +67,7 @@ def main():
             print('patch does not apply:', out)
             return 2
         meta['repo_head'] = sh(['git', '-C', '/repo', 'rev-parse', '--short',
-                                'HEAD'])[1].strip()
+                                a.base])[1].strip()
         env = {'PYTHONPATH': wt, 'PYTHONDONTWRITEBYTECODE': '1'}
         if not a.skip_confirm:
             rc, out = sh('%s -m pytest -q -p no:cacheprovider -x 2>&1 | tail -3'
